@@ -845,6 +845,20 @@ func (m *machine) doSync(x *fakechain.Block, f faultSpec) *failure {
 	if !m.dirty() {
 		m.failedDetect = false
 	}
+	if fail == nil && !fired && m.unjudged == "" {
+		// without any fault a Sync with a canonical header succeeds and, if the
+		// header is ahead of the position, ends exactly there
+		target := x.Number() >= m.k.first(m.syncStart) && (!before.ok || x.Number() > before.number)
+		switch {
+		case err != nil:
+			fail = &failure{m.k.name + ":faultfree-sync-fails", fmt.Sprintf("Sync(header %d) without any injected fault returned: %v", x.Number(), err)}
+		case target && !(after.ok && after.number == x.Number() && m.chain.IsCanonical(after.number, after.hash)):
+			fail = &failure{m.k.name + ":faultfree-sync-misses-head", fmt.Sprintf("Sync(header %d) without any injected fault ended at position %d (row present: %v)", x.Number(), after.number, after.ok)}
+		}
+		if fail != nil {
+			fail.detail += "\nhistory so far: " + strings.Join(m.hist, "; ")
+		}
+	}
 	if fail != nil && m.unjudged != "" {
 		m.label("unjudged-mismatch:" + m.unjudged)
 		return nil
@@ -973,7 +987,12 @@ func (m *machine) actFork(l string) bool {
 	st := m.status(m.shadow)
 	if st.ok && st.number >= 1 && st.number-1 >= lo && st.number-1 <= hi && rapid.IntRange(0, 3).Draw(m.rt, l+"intoSynced") > 0 {
 		top := st.number - 1
-		f = top - uint64(rapid.IntRange(0, int(min(top-lo, reorgDepth-1))).Draw(m.rt, l+"depthBelowSynced"))
+		switch rapid.IntRange(0, 3).Draw(m.rt, l+"depthClass") {
+		case 0: // as deep as the precondition allows
+			f = top - min(top-lo, reorgDepth-1)
+		default:
+			f = top - uint64(rapid.IntRange(0, int(min(top-lo, reorgDepth-1))).Draw(m.rt, l+"depthBelowSynced"))
+		}
 	} else {
 		f = hi - uint64(rapid.IntRange(0, int(min(hi-lo, 12))).Draw(m.rt, l+"depthBelowTip"))
 	}
